@@ -414,6 +414,10 @@ class Certificate:
         """
         if issuer.certificate_has_all_permissions():
             return True
+        # An issuer restricted to an explicit PSID list cannot grant the
+        # unrestricted ("all") issuing permission to a subordinate.
+        if self.certificate_has_all_permissions():
+            return False
         return Certificate.check_all_requested_permissions_are_allowed(
             self.get_list_of_needed_permissions(),
             issuer.get_list_of_allowed_persmissions(),
